@@ -13,7 +13,7 @@ from typing import Any
 import numpy as np
 
 from harness.core import Collector, check, run_hypothesis
-from harness.ropt_util import AffineEvaluator
+from harness.ropt_util import AffineEvaluator, DesignSamplerPlugin
 from ropt.config.enopt import EnOptConfig
 from ropt.enums import EventType
 from ropt.plan import OptimizerContext, Plan
@@ -57,10 +57,10 @@ def seed_dependent(smp: list[Any]) -> bool:
 def build_config(spec: dict[str, Any]) -> dict[str, Any]:
     n = spec["n"]
     cfg: dict[str, Any] = {
-        "variables": {"initial_values": spec["x0"], "lower_bounds": [-2.0] * n, "upper_bounds": [3.0] * n},
+        "variables": {"initial_values": spec["x0"], **({} if spec.get("unbounded") else {"lower_bounds": [-2.0] * n, "upper_bounds": [3.0] * n})},
         "realizations": {"weights": spec["weights"]},
         "objectives": {"weights": [1.0] * spec["K"]},
-        "gradient": {"number_of_perturbations": spec["P"], "perturbation_magnitudes": 0.05, "seed": spec["seed"]},
+        "gradient": {"number_of_perturbations": spec["P"], "perturbation_magnitudes": spec.get("magnitude", 0.05), "seed": spec["seed"]},
         "samplers": [{"method": smp[0], "shared": smp[1], **({"options": smp[2]} if len(smp) > 2 and smp[2] is not None else {})}  # noqa: PLR2004
                      for smp in spec["samplers"]],
         "function_estimators": [{"method": spec["estimator"]}],
@@ -80,6 +80,29 @@ def build_config(spec: dict[str, Any]) -> dict[str, Any]:
     else:
         cfg["optimizer"] = {"method": "slsqp", "max_functions": spec["budget"], "speculative": spec["speculative"]}
     return cfg
+
+
+_PRIVATE = [0]
+
+
+class GreedySamplerPlugin(DesignSamplerPlugin):
+    def is_supported(self, method: str) -> bool:  # noqa: ARG002
+        return True
+
+
+def broken_run() -> None:
+    """An unrelated optimization whose perturbations are infinite (finite function values): the SVD of its gradient estimate fails."""
+    from ropt.evaluator import EvaluatorResult
+
+    def evaluator(variables: np.ndarray, context: Any) -> Any:  # noqa: ANN401
+        target = 0.5 + 0.05 * np.asarray(context.realizations, dtype=np.float64)
+        return EvaluatorResult(objectives=((np.clip(variables, -10.0, 10.0) - target[:, np.newaxis]) ** 2).sum(axis=1)[:, np.newaxis])
+
+    plan = Plan(OptimizerContext(evaluator=evaluator))
+    plan.run_step(plan.add_step("optimizer"), config={
+        "variables": {"initial_values": [0.1, 0.2, 0.3, 0.0]}, "realizations": {"weights": [1.0, 1.0, 1.0]},
+        "gradient": {"number_of_perturbations": 6, "perturbation_magnitudes": np.inf, "seed": 5},
+        "optimizer": {"method": "slsqp", "max_functions": 6}})
 
 
 _SALT = [0]  # every run disturbs NumPy's global generator differently (during the run, from inside the evaluator)
@@ -145,9 +168,11 @@ def run_once(spec: dict[str, Any], session: Session, reuse: str, inside: dict[st
     else:
         if reuse == "fresh" or session.manager is None:
             session.manager = PluginManager()
-        if reuse in ("fresh", "manager") or session.ctx is None or session.ev is None:
+        if reuse in ("fresh", "manager", "default") or session.ctx is None or session.ev is None:
             session.ev = make_evaluator(spec)
-            session.ctx = OptimizerContext(evaluator=session.ev, plugin_manager=session.manager)
+            # ("default": a context that is not given a plug-in manager sets up its own)
+            session.ctx = (OptimizerContext(evaluator=session.ev) if reuse == "default"
+                           else OptimizerContext(evaluator=session.ev, plugin_manager=session.manager))
             session.events = []
             session.ctx.add_observer(EventType.FINISHED_EVALUATION, lambda e, s=session.events: s.append(e.data["results"]))
         else:
@@ -223,6 +248,21 @@ def run_case(case: dict[str, Any]) -> dict[str, Any]:
         if action["kind"] == "reseed":
             np.random.seed(action["value"])  # noqa: NPY002
             interfering += 1
+        elif action["kind"] == "private-plugin":
+            # somebody else's context (with the plug-in manager it set up for itself) gets a prioritized sampler plug-in that
+            # claims every method name: a private matter of that context
+            _PRIVATE[0] += 1
+            other_ctx = OptimizerContext(evaluator=make_evaluator(spec))
+            other_ctx.plugin_manager.add_plugin("sampler", f"private{_PRIVATE[0]}", GreedySamplerPlugin(), prioritize=True)
+            interfering += 1
+        elif action["kind"] == "broken-run":
+            # an unrelated optimization that ends with an exception from the numerical core (infinite perturbations: the SVD of
+            # the gradient estimate does not converge); whatever it raises is its own business
+            try:
+                broken_run()
+            except Exception:  # noqa: BLE001, S110
+                pass
+            interfering += 1
         else:
             other = dict(spec)
             other.update(action["changes"])
@@ -232,7 +272,12 @@ def run_case(case: dict[str, Any]) -> dict[str, Any]:
                     and all(seed_dependent(smp) for smp in spec["samplers"]):
                 check(res["first_pert"] != first["first_pert"], "seed-ignored",
                       f"a run that differs only in the seed ({spec['seed']} -> {action['changes']['seed']}) used identical perturbations", case)
-    second = run_once(spec, session, case["final_reuse"], inside=case.get("inside"))
+    try:
+        second = run_once(spec, session, case["final_reuse"], inside=case.get("inside"))
+    except Exception as exc:  # noqa: BLE001
+        check(False, "trace-differs", f"the second run of the same configuration (after {[a['kind'] for a in case['actions']]}, "  # noqa: FBT003
+              f"reuse={case['final_reuse']}) raised {type(exc).__name__}: {exc} - the first run had ended with exit code {first['code']}", case)
+        raise
     check(second["code"] == first["code"], "exit-code-differs", f"exit codes {first['code']} vs {second['code']}", case)
     check(second["calls"] == first["calls"], "trace-differs", f"{first['calls']} vs {second['calls']} evaluator calls", case)
     check(second["hash"] == first["hash"], "trace-differs",
@@ -290,7 +335,10 @@ def hypothesis_shard(item: dict[str, Any]) -> Collector:
         spec = draw(specs())
         actions = []
         for _ in range(draw(st.integers(1, 3))):
-            kind = draw(st.sampled_from(["reseed", "run", "run", "run"]))
+            kind = draw(st.sampled_from(["reseed", "run", "run", "run", "run", "broken-run"]))
+            if kind == "broken-run":
+                actions.append({"kind": draw(st.sampled_from(["broken-run", "private-plugin"]))})
+                continue
             if kind == "reseed":
                 actions.append({"kind": "reseed", "value": draw(st.integers(0, 2**31 - 1))})
                 continue
@@ -313,7 +361,7 @@ def hypothesis_shard(item: dict[str, Any]) -> Collector:
             inside = dict(spec)
             inside.update({"seed": bump(spec["seed"], 11), "x0": [v + 0.25 for v in spec["x0"]]})
         qmc = {smp[0] for smp in spec["samplers"] if smp[0] in ("sobol", "halton", "lhs")}
-        return {"A": spec, "actions": actions, "config_as": draw(st.sampled_from(["object", "dict"])), "final_reuse": draw(st.sampled_from(["fresh", "manager", "context", "step"])),
+        return {"A": spec, "actions": actions, "config_as": draw(st.sampled_from(["object", "dict"])), "final_reuse": draw(st.sampled_from(["fresh", "manager", "context", "step", "default"])),
                 # several different QMC engines share one generator: always compare with another interpreter (hash seed)
                 "fresh_process": len(qmc) > 1 or draw(st.integers(0, item["fresh_every"])) == 0, "inside": inside}
 
